@@ -44,6 +44,7 @@ type vbHarness struct {
 	maxReqs  int
 	healthy  bool // the database "keeps answering": no more faults
 	closed   int
+	inited   bool
 }
 
 func (c *vbClient) Do(ctx context.Context, q fch.Query) error {
@@ -82,6 +83,15 @@ func vbNew(maxReqs int) *vbHarness {
 		pushInterval: 1000000000,
 		maxQueueSize: int64(vrt.Choice("max-queue-bytes", 2)) * 12, // 0 = unlimited, 12 = flush after 2 rows
 		acquireColumns: func() []IColPoolRes {
+			// fresh buffers are acquired while the batch is swapped; another client's push can only get in
+			// here if the service mutex happens to be free at this moment (it must not be: columns, waiting
+			// list and size are exchanged under one hold of the lock)
+			if h.svc != nil && h.inited && !h.healthy && h.issued < h.maxReqs && h.svc.mtx.TryLock() {
+				h.svc.mtx.Unlock()
+				if vrt.Bool("push-while-buffers-are-acquired") {
+					h.push()
+				}
+			}
 			return []IColPoolRes{&PooledColumn[*proto.ColUInt64]{Name: "id", Data: new(proto.ColUInt64)}}
 		},
 		processRequest: func(r any, cols []IColPoolRes) (int, []IColPoolRes, error) {
@@ -108,6 +118,7 @@ func vbNew(maxReqs int) *vbHarness {
 		return &vbClient{h: h}, nil
 	}
 	h.svc.Init()
+	h.inited = true
 	return h
 }
 
